@@ -63,7 +63,7 @@ func (m MetaData) WriteTo(w io.Writer) (int64, error) {
 //     as w (see lattigo/utils/buffer/buffer.go).
 func (m *MetaData) ReadFrom(r io.Reader) (int64, error) {
 	p := make([]byte, m.BinarySize())
-	if n, err := r.Read(p); err != nil {
+	if n, err := io.ReadFull(r, p); err != nil {
 		return int64(n), err
 	} else {
 		return int64(n), m.UnmarshalBinary(p)
@@ -193,7 +193,7 @@ func (m PlaintextMetaData) WriteTo(w io.Writer) (int64, error) {
 //     as w (see lattigo/utils/buffer/buffer.go).
 func (m *PlaintextMetaData) ReadFrom(r io.Reader) (int64, error) {
 	p := make([]byte, m.BinarySize())
-	if n, err := r.Read(p); err != nil {
+	if n, err := io.ReadFull(r, p); err != nil {
 		return int64(n), err
 	} else {
 		return int64(n), m.UnmarshalBinary(p)
@@ -345,7 +345,7 @@ func (m *CiphertextMetaData) WriteTo(w io.Writer) (int64, error) {
 //     as w (see lattigo/utils/buffer/buffer.go).
 func (m *CiphertextMetaData) ReadFrom(r io.Reader) (int64, error) {
 	p := make([]byte, m.BinarySize())
-	if n, err := r.Read(p); err != nil {
+	if n, err := io.ReadFull(r, p); err != nil {
 		return int64(n), err
 	} else {
 		return int64(n), m.UnmarshalBinary(p)
